@@ -187,9 +187,15 @@ def r2(ck, F):
               and ORD_RANK.get(ordering_of(tc, t["argv"][0]), 0) >= 1 and ordering_of(tc, t["argv"][0]) != "Release"]
     true_paths = 0
     bad = []
+    FLIP = {"Gt": "Lt", "Lt": "Gt", "Ge": "Le", "Le": "Ge", "Eq": "Eq", "Ne": "Ne"}
     for p in PathEval(tc).run():
         if p.end != "return" or p.ret is None:
             continue
+        # `let last = refs <= 1; if last { fence } last`: the returned boolean is a term the path already branched on
+        if p.ret[0] != "const":
+            same = [c for c in p.conds if c[0] == p.ret]
+            if same:
+                p.ret = ("const", "bool", 1 if same[0][1] != 0 else 0, None)
         if p.ret[0] == "const" and p.ret[2] == 1:
             true_paths += 1
             if sbb not in p.blocks:
@@ -199,9 +205,14 @@ def r2(ck, F):
             last_one = False
             for c in p.conds:
                 term, v = c[0], c[1]
-                if term[0] != "bin" or term[2][0] != "call" or term[2][3] != sbb or term[3][0] != "const":
+                if term[0] != "bin":
                     continue
-                op, k = term[1], term[3][2]
+                if term[2][0] == "call" and len(term[2]) > 3 and term[2][3] == sbb and term[3][0] == "const":
+                    op, k = term[1], term[3][2]
+                elif term[3][0] == "call" and len(term[3]) > 3 and term[3][3] == sbb and term[2][0] == "const":
+                    op, k = FLIP.get(term[1], term[1]), term[2][2]      # constant on the left: `1 >= refs` is `refs <= 1`
+                else:
+                    continue
                 taken = v != 0
                 if k == 1 and ((op == "Gt" and not taken) or (op == "Le" and taken) or (op == "Eq" and taken)):
                     last_one = True
